@@ -368,6 +368,49 @@ def run_wcmatch(desc):
             if a != b:
                 out.violation({'pattern': p, 'mode': 'wcmatch', 'decoded': dec, 'impl': a, 'want': b, 'problem': 'WcMatch RAWCHARS differs'},
                               bucket=('wcmatch',))
+        # the file-system walker: inclusion, inline exclusion and exclude= patterns all go through the decoder, str and bytes
+        from ..util import WP
+        for p in ['\\x41', '\\101', '\\u0041', '\\N{DIGIT ONE}', '\\x2a', 'a\\x20b', '[\\x41-\\x42]', '\\x41*', '\\x61\\x31']:
+            dec = decode(p, False)
+            for how in ('include', 'exclude=', 'inline', 'exclude-list', 'pathlib-exclude', 'bytes-exclude'):
+                out.evaluations += 1
+                try:
+                    if how == 'include':
+                        a = sorted(G.glob(p, flags=G.RAWCHARS, root_dir=root)); b = sorted(G.glob(dec, root_dir=root))
+                    elif how == 'exclude=':
+                        a = sorted(G.glob('*', flags=G.RAWCHARS, exclude=p, root_dir=root)); b = sorted(G.glob('*', exclude=dec, root_dir=root))
+                    elif how == 'inline':
+                        a = sorted(G.glob(['*', '!' + p], flags=G.RAWCHARS | G.NEGATE, root_dir=root))
+                        b = sorted(G.glob(['*', '!' + dec], flags=G.NEGATE, root_dir=root))
+                    elif how == 'exclude-list':
+                        a = sorted(G.glob('*', flags=G.RAWCHARS, exclude=['zz', p], root_dir=root)); b = sorted(G.glob('*', exclude=['zz', dec], root_dir=root))
+                    elif how == 'pathlib-exclude':
+                        a = sorted(str(x) for x in WP.Path(root).glob('*', flags=G.RAWCHARS, exclude=p))
+                        b = sorted(str(x) for x in WP.Path(root).glob('*', exclude=dec))
+                    else:
+                        if not p.isascii() or 'N{' in p or '\\u' in p:
+                            continue
+                        a = sorted(G.glob(b'*', flags=G.RAWCHARS, exclude=p.encode(), root_dir=os.fsencode(root)))
+                        b = sorted(G.glob(b'*', exclude=dec.encode('latin-1'), root_dir=os.fsencode(root)))
+                except Exception as e:
+                    out.violation({'pattern': p, 'mode': 'glob', 'how': how, 'decoded': dec, 'problem': 'glob() with RAWCHARS raised ' + type(e).__name__},
+                                  bucket=('glob-exc', how))
+                    continue
+                out.nontrivial(('glob', p, how))
+                if a != b:
+                    out.violation({'pattern': p, 'mode': 'glob', 'how': how, 'decoded': dec, 'impl': [str(x) for x in a][:8], 'want': [str(x) for x in b][:8],
+                                   'problem': 'glob() with RAWCHARS differs from glob() of the decoded pattern'}, bucket=('glob', how))
+        for how in ('exclude=', 'include'):
+            out.evaluations += 1
+            try:
+                if how == 'include':
+                    G.glob('\\x4', flags=G.RAWCHARS, root_dir=root)
+                else:
+                    G.glob('*', flags=G.RAWCHARS, exclude='\\x4', root_dir=root)
+                out.violation({'pattern': '\\x4', 'mode': 'glob', 'how': how, 'problem': 'an incomplete escape did not raise SyntaxError in glob()'},
+                              bucket=('glob-syntax', how))
+            except SyntaxError:
+                pass
     out.sample({'pattern': '\\x41', 'mode': 'wcmatch'})
     return out
 
@@ -375,7 +418,7 @@ def run_wcmatch(desc):
 def replay(case):
     util.clear_caches()
     o = Outcome()
-    if case.get('mode') == 'wcmatch':
+    if case.get('mode') in ('wcmatch', 'glob'):
         r = run_wcmatch({})
         return (not r.violations), [v[2] for v in r.violations][:3]
     if case.get('rawchars') is False:
